@@ -51,6 +51,9 @@ Proof. split; [cbn; lia | exact sha512_length]. Qed.
 Lemma H_sha1_wf : hash_wf H_sha1.
 Proof. split; [cbn; lia | exact sha1_length]. Qed.
 
+Lemma hashes_wf : hash_wf H_sha256 /\ hash_wf H_sha384 /\ hash_wf H_sha512 /\ hash_wf H_sha1.
+Proof. exact (conj H_sha256_wf (conj H_sha384_wf (conj H_sha512_wf H_sha1_wf))). Qed.
+
 Lemma hash_of_code_wf c : hash_wf (hash_of_code c).
 Proof.
   unfold hash_of_code.
